@@ -6,39 +6,55 @@
  "replace": ["events_mkrec", "events_freerec"],
  "annotate": ["events/events_network.c"],
  "defines": ["VERIF_HALLOC"],
- "matrix": {"REGCASE": [0, 1, 2, 3, 4, 5], "RS": [0, 1, 2, 3]},
+ "matrix": {"REGCASE": [0, 1, 2, 3, 4, 5, 6, 7, 8, 9, 10, 11]},
  "models": ["models/ev_poll.c", "models/ev_atexit.c", "models/ev_selectstats.c", "models/ev_warnp.c"],
- "cbmc": ["--malloc-may-fail", "--malloc-fail-null"],
+ "cbmc": ["--malloc-may-fail", "--malloc-fail-null", "--unwindset", "growsocketlist.0:5"],
  "loop_contracts": false,
- "unwind": 5,
  "bounded": true,
  "bound": "the record-initialisation loop of growsocketlist (inlined here) is unwound NS_Q+1 times: complete for descriptors < NS_Q = 4 (unwinding assertion checked); the loop is closed by its loop contract in C04/net_growsocketlist",
  "timeout": 300,
- "assumptions": ["object-size parameters: descriptors < NS_Q, <= NF_Q pollfd entries; capacities of S and fds per REGCASE (0: S full/fds none, 1: S full/fds 2, 2: S full/fds 4, 3: S empty/fds none, 4: S 1/fds 1, 5: S 2/fds 3)",
+ "assumptions": ["object-size parameters: descriptors < NS_Q, <= NF_Q pollfd entries; capacity of S (records) / capacity of fds (entries) / descriptor number are constants per REGCASE: 4/0/0 4/2/1 4/2/3 4/4/2 0/0/0 0/0/3 1/1/0 1/1/1 1/1/3 2/3/2 2/3/3 2/1/1 (CBMC's realloc model needs concrete sizes); invalid arguments: C04/net_badargs",
                  "events_mkrec / events_freerec replaced by their contracts (models/ev_rec.h; enforced on the real functions in C04/rec_*)",
                  "growsocketlist, growpollfd, elasticarray_resize inlined (real code); CBMC's realloc model (may fail, may move)",
                  "state S == NULL is covered by C04/net_uninit",
                  "meta-level induction over histories (L-ind)"]
 }
 */
-#if REGCASE == 0
+/* REGCASE -> (capacity of S in records, capacity of fds in entries, descriptor being registered) */
+#if REGCASE <= 3
 #define NET_SA_EXACT 4
-#define NET_FA_EXACT 0
-#elif REGCASE == 1
-#define NET_SA_EXACT 4
-#define NET_FA_EXACT 2
-#elif REGCASE == 2
-#define NET_SA_EXACT 4
-#define NET_FA_EXACT 4
-#elif REGCASE == 3
+#elif REGCASE <= 5
 #define NET_SA_EXACT 0
-#define NET_FA_EXACT 0
-#elif REGCASE == 4
+#elif REGCASE <= 8
 #define NET_SA_EXACT 1
-#define NET_FA_EXACT 1
 #else
 #define NET_SA_EXACT 2
+#endif
+#if REGCASE == 0 || REGCASE == 4 || REGCASE == 5
+#define NET_FA_EXACT 0
+#elif REGCASE == 1 || REGCASE == 2
+#define NET_FA_EXACT 2
+#elif REGCASE == 3
+#define NET_FA_EXACT 4
+#elif REGCASE == 9 || REGCASE == 10
 #define NET_FA_EXACT 3
+#else
+#define NET_FA_EXACT 1
+#endif
+#if REGCASE == 0 || REGCASE == 4 || REGCASE == 6
+#define RS 0
+#elif REGCASE == 1 || REGCASE == 7 || REGCASE == 11
+#define RS 1
+#elif REGCASE == 3 || REGCASE == 9
+#define RS 2
+#else
+#define RS 3
+#endif
+/* can this instance reach the realloc of fds? (needs nfds == capacity with the descriptor not yet polled) */
+#if REGCASE == 1 || REGCASE == 2 || REGCASE == 7 || REGCASE == 8 || REGCASE == 11
+#define FDS_REALLOC_REACHABLE 1
+#else
+#define FDS_REALLOC_REACHABLE 0
 #endif
 #include <stdlib.h>
 #include "verif.h"
@@ -78,9 +94,11 @@ h_register(void)
 	    "registered, and no stale readiness can fire it");
 	EV_SPEC_END
 
-#if RS < NET_SA_EXACT
+#if RS < NET_SA_EXACT && NET_FA_EXACT > 0
 	VCOVER(rc == 0 && other && nfds == nfds0);
 	VCOVER(rc == -1 && occupied);
+#endif
+#if RS < NET_SA_EXACT
 	VCOVER(rc == -1 && valid && !occupied && !other && (size_t)s < ns0 && g_lastfreed == g_lastrec && g_lastrec != NULL && g_live == mk_live0);
 #endif
 	VCOVER(rc == 0 && !other && nfds == nfds0 + 1 && (size_t)s == g_ns && op == EVENTS_NETWORK_OP_WRITE);
@@ -93,7 +111,7 @@ h_register(void)
 	VCOVER(rc == 0 && NS_N == ns0 + 2 && g_ns < ns0 && NS_R(g_ns).reader != NULL);
 	VCOVER(rc == 0 && g_ns == 2 && NS_R(g_ns).reader == NULL && NS_R(g_ns).pollpos == SIZE_MAX);
 #endif
-#if NET_FA_EXACT > 0 && NET_FA_EXACT < 4
+#if FDS_REALLOC_REACHABLE
 	VCOVER(rc == 0 && fds_alloc == 2 * fa0 && g_nj < nfds0);
 #endif
 #if NET_FA_EXACT == 0
